@@ -10,6 +10,7 @@ running interpreter.  Direct oracle = the property's predicates evaluated in
 Python on what the implementation returned (independent of the model)."""
 import json
 import re
+import time
 from collections import Counter
 
 import common
@@ -79,6 +80,24 @@ COUNTERS_FLAT = ["count_emails", "count_email_providers", "count_website_urls", 
                  "count_base_structures", "count_raw_base_structures"]
 
 
+def recursing_function(names):
+    """the function a RecursionError is about: the most frequent name among the innermost frames"""
+    names = [n for n in names if n][-200:]
+    return Counter(names).most_common(1)[0][0] if names else "unknown"
+
+
+def exception_kind(e):
+    """'' or 'recursion:<function>' (a depth limit of the interpreter, hit by a function that calls itself once per
+    piece of the input, is reported under its own signature: how long an input it takes depends on the caller's stack)"""
+    if not isinstance(e, RecursionError):
+        return ""
+    names, tb = [], e.__traceback__
+    while tb is not None:
+        names.append(tb.tb_frame.f_code.co_name)
+        tb = tb.tb_next
+    return "recursion:" + recursing_function(names)
+
+
 def run_impl(mw, pws):
     """one parser object, the passwords in order -> (per password section list or None, counters or None)"""
     I = impl()
@@ -92,7 +111,7 @@ def run_impl(mw, pws):
             secs.append(I["cap"][-1] if I["cap"] else None)
         except Exception as e:      # noqa: BLE001 - the property says parse never raises
             secs.append(None)
-            raised = raised or (pw, repr(e))
+            raised = raised or (pw, repr(e), exception_kind(e))
     counters = None
     if raised is None:
         counters = {}
@@ -163,19 +182,22 @@ def lowered(s):
 
 def tile_ok(pw, secs):
     """exists a split of pw into pieces equal to the section texts (a W text is
-    the lower-cased piece)"""
-    def go(pos, i):
-        if i == len(secs):
-            return pos == len(pw)
-        text, lab = secs[i]
-        if lab == "W":
-            for n in range(0, len(text) + 1):
-                piece = pw[pos:pos + n]
-                if (piece.lower() == text or lowered(piece) == text) and go(pos + n, i + 1):
-                    return True
+    the lower-cased piece).  Iterative: the number of sections is not bounded."""
+    cur = {0}
+    for text, lab in secs:
+        nxt = set()
+        for pos in cur:
+            if lab == "W":
+                for n in range(0, len(text) + 1):
+                    piece = pw[pos:pos + n]
+                    if piece.lower() == text or lowered(piece) == text:
+                        nxt.add(pos + n)
+            elif pw[pos:pos + len(text)] == text:
+                nxt.add(pos + len(text))
+        cur = nxt
+        if not cur:
             return False
-        return pw[pos:pos + len(text)] == text and go(pos + len(text), i + 1)
-    return go(0, 0)
+    return len(pw) in cur
 
 
 def expected_counters(all_secs):
@@ -223,10 +245,15 @@ def oracle(kb, ctxs, tlds, kw, pre, hist, counts, mw, pws, secs_list, counters, 
     rp = {"pre": pre, "hist": hist, "pws": pws}
 
     def v(kind, what, pw):
+        if len(pw) > 120 or len(what) > 1500:
+            vio.append({"sig": "C05:" + kind, "what": "%s; password of %d characters %r...%r" %
+                        (what[:1500], len(pw), pw[:40], pw[-12:]), "replay": dict(rp, pws=[pw])})
+            return
         vio.append({"sig": "C05:" + kind, "what": "%s; password %r (code points %s)" %
                     (what, pw, " ".join("U+%04X" % ord(c) for c in pw)), "replay": dict(rp, pws=[pw])})
     if raised:
-        v("raises", "parse raised %s" % raised[1], raised[0])
+        kind = raised[2] if len(raised) > 2 else ""
+        v("raises" + (":" + kind if kind else ""), "parse raised %s" % raised[1], raised[0])
     for pw, secs in zip(pws, secs_list):
         if secs is None:
             continue
@@ -436,14 +463,95 @@ def mw_queries(rng, mw, pre, hist):
     return out
 
 
+def reject_reason():
+    """why the input filter turns a string down (None: it accepts it).  Independent of the running check_valid: not
+    empty and none of the rejected characters (the constant set of the source, consts.trainer_io; C07 / C19 tie it)."""
+    from consts import trainer_io as K
+    try:
+        rej = set(K.extract_check_valid()[0])
+    except Exception:      # noqa: BLE001 - the source has a shape the extractor refuses: ask the running filter about single characters
+        from lib_trainer.trainer_file_input import check_valid
+        rej = {c for c in list(range(0x3000)) + [0xFEFF, 0xFFFE, 0xFFFF] if not check_valid("a" + chr(c) + "b")}
+
+    def why(p):
+        if p == "":
+            return "empty"
+        bad = sorted({ord(c) for c in p if ord(c) in rej})
+        return ("U+%04X" % bad[0]) if bad else None
+    return why
+
+
+def trainer_input(sc, tag, rp):
+    """the training file (and pre-training list) of a whole-trainer case -> (path, encoding, multiword path or None)"""
+    import os
+    path = os.path.join(sc, "tr%s.txt" % tag)
+    if "file" in rp:
+        with open(path, "wb") as f:
+            f.write(bytes.fromhex(rp["file"]))
+    else:
+        with open(path, "w", encoding="utf-8", newline="") as f:
+            f.write("\n".join(rp["hist"]) + "\n")
+    mwp = None
+    if rp.get("pre"):
+        mwp = os.path.join(sc, "mw%s.txt" % tag)
+        with open(mwp, "w", encoding="utf-8", newline="") as f:
+            f.write("\n".join(rp["pre"]) + "\n")
+    return path, rp.get("enc", "utf-8"), mwp
+
+
+def run_trainer_case(sc, tag, rp):
+    import os
+    import trainer_io as T
+    path, enc, mwp = trainer_input(sc, tag, rp)
+    return T.train_inprocess(path, enc, os.path.join(sc, "TR%s" % tag), coverage=0.6, multiword=mwp)
+
+
+def judge_trainer_run(rec, rp, kb, ctxs, tlds, kw, why):
+    """The property on one whole run_trainer run: every password pass 2 handed to the parser is one the input filter
+    accepts, parsing it did not raise, and its section list satisfies the oracle ('seen n times' counted on what
+    pass 1 read).  rp: the replay dict of the run.  -> (violations, usable)"""
+    vio = []
+    pre = rp.get("pre") or []
+    out = rec.stdout or ""
+    handed = rec.seqs[1] if len(rec.seqs) > 1 else []
+    if (not rec.ok and len(rec.seqs) == 2 and len(rec.sections) < len(handed)
+            and (rec.exc or ("Traceback (most recent call last)" in out and "pcfg_password_parser" in out))):
+        # run_trainer prints the traceback of what parse() raised in pass 2 and gives up: nothing is saved
+        names = re.findall(r'File "[^"]+", line \d+, in (\w+)', out)
+        last = [l for l in out.strip().split("\n") if l.strip()][-3:]
+        pw = handed[len(rec.sections)] if len(rec.sections) < len(handed) else handed[-1]
+        recursion = "RecursionError" in out or "RecursionError" in (rec.exc or "")
+        sig = ("C05:raises:recursion:%s:trainer-run" % recursing_function(names)) if recursion else "C05:trainer-run:raises"
+        vio.append({"sig": sig, "what": "run_trainer gave up in pass 2 because parse() raised on a password of %d characters "
+                    "%r...: no rule file is written (output ends %r)" % (len(pw), pw[:40], " | ".join(last)[-300:]),
+                    "replay": dict(rp, pws=[pw], trainer_run=True)})
+        return vio, False
+    if not rec.ok or len(rec.seqs) < 2 or len(rec.sections) != len(handed):
+        return vio, False
+    for p in dict.fromkeys(handed):
+        r = why(p)
+        if r:
+            vio.append({"sig": "C05:trainer-run:trained-on-rejected:" + r, "what": "pass 2 of run_trainer handed %r to the parser, a string "
+                        "the input filter rejects (%s); its sections: %r" % (p[:80], r, rec.sections[handed.index(p)][:6]),
+                        "replay": dict(rp, pws=[p], trainer_run=True)})
+    pre_read = [list(r.verif_seq) for r in rec.multiword_reader]
+    counts = spec_counts(pre_read[0] if pre_read else [], rec.seqs[0], kw)
+    v = oracle(kb, ctxs, tlds, kw, pre, rec.seqs[0], counts, None, handed, rec.sections, None, None)
+    for x in v:
+        x["sig"] = x["sig"].replace("C05:", "C05:trainer-run:", 1)
+        x["replay"] = dict(rp, pws=x["replay"]["pws"], trainer_run=True)
+        if "file" not in rp:
+            x["replay"]["hist"] = rec.seqs[0]
+    return vio + v, True
+
+
 def trainer_stage(ctx, kb, ctxs, tlds, kw, dist):
     """The segmentation as a WHOLE trainer run produces it (run_trainer: pass 1 trains the multi-word detector, whatever
     happens to it between the passes, pass 2 parses): the same oracle on the section lists of pass 2, 'seen n times'
-    counted on the passwords pass 1 read."""
-    import os
-    import trainer_io as T
+    counted on the passwords pass 1 read.  Every other list also holds one or two long lines (seg_gen.gen_long)."""
     rng = ctx.rng
     sc = common.scratch()
+    why = reject_reason()
     vio = []
     plain = [w for w in seg_gen.WORDS if 4 <= len(w) <= 8 and w.isascii() and w.isalpha()]
     for j in range(ctx.scale(6, 40)):
@@ -453,29 +561,168 @@ def trainer_stage(ctx, kb, ctxs, tlds, kw, dist):
         W = a + b
         hist = list(hist) + [a] * 5 + [b] * rng.choice([5, 6]) + [W] * rng.choice([5, 7]) + [W[:-1]] * rng.choice([1, 2, 4]) \
             + [W + "s"] * rng.choice([0, 1, 5]) + [W + "1", W.capitalize() + "!", b + a]
+        if j % 2 == 1:
+            longs = [seg_gen.LONG_FIXED[(j // 2) % len(seg_gen.LONG_FIXED)], seg_gen.gen_long(rng)[0]]
+            hist += longs[:rng.choice([1, 2])] * rng.choice([1, 2])
+            dist["trainer_runs_with_long_lines"] += 1
         rng.shuffle(hist)
         hist = [p for p in hist if p and "\n" not in p and "\r" not in p and not p.startswith("$HEX[")]
-        path = os.path.join(sc, "tr%d.txt" % j)
-        with open(path, "w", encoding="utf-8", newline="") as f:
-            f.write("\n".join(hist) + "\n")
-        mwp = None
-        if pre:
-            mwp = os.path.join(sc, "mw%d.txt" % j)
-            with open(mwp, "w", encoding="utf-8", newline="") as f:
-                f.write("\n".join(pre) + "\n")
-        rec = T.train_inprocess(path, "utf-8", os.path.join(sc, "TR%d" % j), coverage=0.6, multiword=mwp)
-        if not rec.ok or len(rec.seqs) < 2 or len(rec.sections) != len(rec.seqs[1]):
+        rp = {"pre": pre, "hist": hist}
+        rec = run_trainer_case(sc, str(j), rp)
+        v, usable = judge_trainer_run(rec, rp, kb, ctxs, tlds, kw, why)
+        vio += v
+        if not usable:
             dist["trainer_runs_unusable"] += 1
             continue
         dist["trainer_runs"] += 1
         dist["trainer_run_passwords"] += len(rec.seqs[1])
-        pre_read = [list(r.verif_seq) for r in rec.multiword_reader]
-        counts = spec_counts(pre_read[0] if pre_read else [], rec.seqs[0], kw)
-        v = oracle(kb, ctxs, tlds, kw, pre, rec.seqs[0], counts, None, rec.seqs[1], rec.sections, None, None)
-        for x in v:
-            x["sig"] = x["sig"].replace("C05:", "C05:trainer-run:", 1)
-            x["replay"] = {"pre": pre, "hist": rec.seqs[0], "pws": x["replay"]["pws"], "trainer_run": True}
-        vio += v
+    return vio
+
+
+BOM = "\ufeff"
+# what a training file may begin with: a byte order mark (alone on its line, glued to the first password, doubled),
+# blank lines, lines holding only a space / a format character
+FILE_HEADS = ["", BOM + "\n", BOM, "\n\n", BOM + "\n\n", BOM + BOM + "\n", "\r\n", BOM + "\r\n", " \n", BOM + " \n",
+              "\u200b\n", BOM + "\u200b\n", "\n" + BOM + "\n"]
+# (encoding handed to the trainer, codec the bytes are made with); the 'utf-16' reader needs its own mark in front
+FILE_ENCODINGS = [("utf-8", "utf-8"), ("utf-8-sig", "utf-8"), ("utf-16", "utf-16-le"), ("utf-16", "utf-16-be"),
+                  ("utf-16-le", "utf-16-le"), ("utf-16-be", "utf-16-be")]
+
+
+def reader_stage(ctx, kb, ctxs, tlds, kw, dist):
+    """Whole trainer runs on FILES (bytes), not lists: every way a file may begin (FILE_HEADS) x the Unicode encodings
+    (FILE_ENCODINGS) x line ends; the passwords that reach the parser are whatever the real reader makes of the bytes.
+    Oracle: judge_trainer_run (accepted by the filter, never raises, sound tiling)."""
+    rng = ctx.rng
+    sc = common.scratch()
+    why = reject_reason()
+    vio = []
+    k = 0
+    for rnd in range(ctx.scale(2, 10)):
+        for head in FILE_HEADS:
+            for enc, codec in FILE_ENCODINGS:
+                body = [seg_gen.gen_string(rng)[0] for _ in range(rng.randint(0, 6))]
+                body += [rng.choice(["password1", "monkey12", "1qaz2wsx", "a" + BOM + "b", BOM, "x" + BOM, "summer2019"])
+                         for _ in range(rng.randint(0, 3))]
+                body = [p for p in body if p.strip("\r\n") == p and p and not p.startswith("$HEX[") and not why(p)]
+                body += body[:2]
+                rng.shuffle(body)
+                eol = rng.choice(["\n", "\n", "\r\n"])
+                text = head.replace("\r\n", "\n").replace("\n", eol) if rng.random() < 0.5 else head
+                text += "".join(p + eol for p in body)
+                if body and rng.random() < 0.15:
+                    text = text[:-len(eol)]                      # no line end after the last password
+                if enc == "utf-16":
+                    text = BOM + text
+                try:
+                    data = text.encode(codec)
+                except UnicodeEncodeError:
+                    continue
+                rp = {"pre": [], "file": data.hex(), "enc": enc}
+                rec = run_trainer_case(sc, "f%d" % k, rp)
+                k += 1
+                v, usable = judge_trainer_run(rec, rp, kb, ctxs, tlds, kw, why)
+                vio += v
+                dist["reader_runs" if usable else "reader_runs_unusable"] += 1
+                if usable:
+                    dist["reader_run_passwords"] += len(rec.seqs[1])
+                    dist["reader_runs_first_password_holds_bom"] += bool(rec.seqs[1] and BOM in rec.seqs[1][0])
+                    dist["reader_enc_" + enc] += 1
+    return vio
+
+
+def long_stage(ctx, kb, ctxs, tlds, kw, dist, P):
+    """Long passwords (seg_gen.LONG_FIXED, gen_long: 400-1500 characters) through parse(), under the empty and one
+    generated multi-word history; same oracle; some of them go to the model.  -> (violations, shards, shard meta, n, facts)"""
+    rng = ctx.rng
+    vio, shards, shard_cases = [], [], {}
+    n_eval, facts_ok = 0, True
+    for hi in range(2):
+        pre, hist = ([], []) if hi == 0 else seg_gen.gen_history(rng)
+        mw = make_detector(pre, hist, kw)
+        counts = spec_counts(pre, hist, kw)
+        chosen = []
+        for i in range(ctx.scale(80, 600)):
+            if hi == 0 and i < len(seg_gen.LONG_FIXED):
+                s, fams = seg_gen.LONG_FIXED[i], ["long-fixed"]
+            else:
+                s, fams = seg_gen.gen_long(rng)
+            if not set(s) <= P or not seg_gen.check_charwise_lower(s):
+                facts_ok = False
+            secs, counters, raised = run_impl(mw, [s])
+            n_eval += 1
+            here = oracle(kb, ctxs, tlds, kw, pre, hist, counts, mw, [s], secs, counters, raised)
+            vio += here
+            dist["fam_" + fams[0]] += 1
+            dist["long_sections_max"] = max(dist["long_sections_max"], len(secs[0] or []))
+            if raised:
+                dist["raised"] += 1
+            elif here:
+                pass        # already reported with its input; a section list that does not tile can be far longer than the password
+            elif len(chosen) < ctx.scale(14, 60) and (fams == ["long-fixed"] or rng.random() < 0.5):
+                chosen.append(([s], secs, counters))
+        cases = ["CParse 0%%nat %s [%s] %s" % (cstrs(pws), "; ".join(csections(x) for x in secs), ccounters(c))
+                 for pws, secs, c in chosen]
+        dist["coq_cases_long"] += len(cases)
+        for s0 in range(0, len(cases), 8):
+            name = "long%d_%02d" % (hi, s0 // 8)
+            shards.append((name, shard_source([(pre, hist)], cases[s0:s0 + 8])))
+            shard_cases[name] = [{"pre": pre, "hist": hist, "pws": [pws[0][:60] + "...(%d)" % len(pws[0])]} for pws, _, _ in chosen[s0:s0 + 8]]
+    return vio, shards, shard_cases, n_eval, facts_ok
+
+
+RECURSION_PROBE = "1qaz" * 1100
+PROBE_SECONDS = 30
+
+
+class TooSlow(BaseException):
+    """not an Exception: passes through the implementation's and the harness's `except Exception`"""
+
+
+def time_limited(seconds, f):
+    """f() under a wall-clock limit (SIGALRM; the driver's own watchdog alarm is put back afterwards) -> (result, timed out)"""
+    import signal
+
+    def on_alarm(signum, frame):
+        raise TooSlow()
+    t0 = time.time()
+    old = signal.signal(signal.SIGALRM, on_alarm)
+    left = signal.alarm(seconds)
+    try:
+        return f(), False
+    except TooSlow:
+        return None, True
+    finally:
+        signal.alarm(0)
+        signal.signal(signal.SIGALRM, old)
+        if left:
+            signal.alarm(max(1, left - int(time.time() - t0)))
+
+
+def recursion_probe(ctx, kb, ctxs, tlds, kw, dist):
+    """One password of 1100 keyboard walks (4400 characters), through parse() and through a whole trainer run.  Each of
+    the two under a limit of PROBE_SECONDS (measured: 0.05 s / 0.4 s): an implementation that needs longer is noted,
+    the property does not speak about time."""
+    vio = []
+    mw = make_detector([], [], kw)
+    got, slow = time_limited(PROBE_SECONDS, lambda: run_impl(mw, [RECURSION_PROBE]))
+    if slow:
+        dist["recursion_probe_parse_timed_out"] += 1
+        ctx.note("C05: parse() of %d keyboard walks did not return within %d s" % (len(RECURSION_PROBE) // 4, PROBE_SECONDS))
+        return vio
+    secs, counters, raised = got
+    vio += oracle(kb, ctxs, tlds, kw, [], [], {}, mw, [RECURSION_PROBE], secs, counters, raised)
+    dist["recursion_probe_parse_raised"] += bool(raised)
+    rp = {"pre": [], "hist": ["password1"] * 3 + [RECURSION_PROBE] + ["monkey12", "password1"]}
+    rec, slow = time_limited(PROBE_SECONDS, lambda: run_trainer_case(common.scratch(), "rp", rp))
+    if slow:
+        dist["recursion_probe_trainer_timed_out"] += 1
+        ctx.note("C05: run_trainer on a list holding a line of %d keyboard walks did not return within %d s"
+                 % (len(RECURSION_PROBE) // 4, PROBE_SECONDS))
+        return vio
+    v, usable = judge_trainer_run(rec, rp, kb, ctxs, tlds, kw, reject_reason())
+    vio += v
+    dist["recursion_probe_trainer_completed"] += bool(usable)
     return vio
 
 
@@ -558,7 +805,15 @@ def run(ctx):
             name = "h%03d_%d" % (h, s0 // 400)
             shards.append((name, shard_source([(pre, hist)], cases[s0:s0 + 400])))
             shard_cases[name] = meta[s0:s0 + 400]
+    lv, lshards, lmeta, ln, lfacts = long_stage(ctx, kb, ctxs, tlds, kw, dist, P)
+    vio += lv
+    shards += lshards
+    shard_cases.update(lmeta)
+    evaluations += ln
+    facts_ok = facts_ok and lfacts
+    vio += recursion_probe(ctx, kb, ctxs, tlds, kw, dist)
     vio += trainer_stage(ctx, kb, ctxs, tlds, kw, dist)
+    vio += reader_stage(ctx, kb, ctxs, tlds, kw, dist)
     corr.append(("unicode-facts:generated-strings-within-pool-and-lower-charwise", facts_ok, ""))
     # the translator tie (gen/Detect_gen.v and its equality proofs): which part no longer checks, if any
     corr.extend(detect_tie.status())
@@ -584,19 +839,31 @@ def run(ctx):
             "characters, under %d generated multi-word training histories; every string is parsed by the real "
             "PCFGPasswordParser and checked by the direct oracle; distinct = base-structure shape of the returned section "
             "list(s); plus whole run_trainer runs (pass 1 trains the multi-word detector, pass 2 parses) on lists holding a frequent "
-            "compound, its frequent parts and rarer prefixes / extensions, same oracle on the section lists of pass 2; non-trivial = at least two different label kinds (two detectors fired)" % n_hist)
+            "compound, its frequent parts and rarer prefixes / extensions (every other list also holds long lines), same oracle on the section lists of pass 2 and: "
+            "every password handed to the parser is one the input filter accepts (filter re-stated in the harness), a parse() that raises inside the run is a violation; "
+            "whole run_trainer runs on FILES: every way a file may begin (byte order mark alone on its line / glued to the first password / doubled, blank lines, "
+            "a space or format character alone) x utf-8, utf-8-sig, utf-16 (LE/BE), utf-16-le, utf-16-be x LF / CRLF; long passwords (400-1500 characters: "
+            "101-260 keyboard walks in a row, runs of one class, one trigger repeated 100-300 times) through parse() and the model; one probe of 1100 walks "
+            "(4400 characters) through parse() and the whole trainer; non-trivial = at least two different label kinds (two detectors fired)" % n_hist)
     dist["distinct_shapes"] = len(shapes_all)
     return {"evaluations": evaluations, "distinct_nontrivial": len(nontrivial_shapes), "rule": rule, "samples": samples,
             "dist": dict(dist), "corr": corr, "violations": [shrink(ctx, v) for v in dedup(vio)]}
 
 
 def shrink(ctx, v):
-    """delete characters / history entries while the same signature is reported"""
+    """delete pieces (64, 16, 4, 1 characters) / the history while the same signature is reported; at most
+    SHRINK_BUDGET replays per violation; whole trainer runs and depth-limit findings are kept as they are"""
     rp = dict(v["replay"])
-    if len(rp.get("pws", [])) != 1:
+    if len(rp.get("pws", [])) != 1 or "file" in rp or rp.get("trainer_run") or ":recursion:" in v["sig"]:
         return v
+    budget = [SHRINK_BUDGET]
+    if not _shrink_deadline:
+        _shrink_deadline.append(time.time() + SHRINK_SECONDS)
 
     def hits(r):
+        if budget[0] <= 0 or time.time() > _shrink_deadline[0]:
+            return []
+        budget[0] -= 1
         try:
             return [w for w in replay(ctx, {"input": r}) if w["sig"] == v["sig"]]
         except Exception:   # noqa: BLE001
@@ -607,21 +874,29 @@ def shrink(ctx, v):
         if h:
             rp = dict(rp, hist=[], pre=[])
             best = h[0]
-    changed = True
-    while changed:
-        changed = False
-        s = rp["pws"][0]
-        for i in range(len(s)):
-            t = s[:i] + s[i + 1:]
-            if not t:
-                continue
-            h = hits(dict(rp, pws=[t]))
-            if h:
-                rp = dict(rp, pws=[t])
-                best = h[0]
-                changed = True
+    for size in (64, 16, 4, 1):
+        changed = True
+        while changed and budget[0] > 0:
+            changed = False
+            s = rp["pws"][0]
+            if len(s) <= size:
                 break
+            for i in range(0, len(s), size):
+                t = s[:i] + s[i + size:]
+                if not t:
+                    continue
+                h = hits(dict(rp, pws=[t]))
+                if h:
+                    rp = dict(rp, pws=[t])
+                    best = h[0]
+                    changed = True
+                    break
     return best
+
+
+SHRINK_BUDGET = 1200
+SHRINK_SECONDS = 30          # all shrinking of one run together
+_shrink_deadline = []
 
 
 def dedup(vio):
@@ -635,32 +910,29 @@ def dedup(vio):
     return [b[1] for _, b in sorted(best.items())]
 
 
+_static = []
+
+
+def static():
+    """keyboard layouts, constants of the sources, detector arguments (the tree does not change during a run)"""
+    if not _static:
+        C = trainer_seg.extract_data()
+        _static.append((KB(), C, {"threshold": C["mw_threshold"], "min_len": C["mw_min_len"], "max_len": C["mw_max_len"]}))
+    return _static[0]
+
+
 def replay(ctx, data):
     inp = data.get("input") or {}
     if "pws" not in inp:
         return []
-    kb = KB()
-    C = trainer_seg.extract_data()
-    kw = {"threshold": C["mw_threshold"], "min_len": C["mw_min_len"], "max_len": C["mw_max_len"]}
+    kb, C, kw = static()
     pre, hist, pws = inp.get("pre", []), inp.get("hist", []), inp["pws"]
     if inp.get("trainer_run"):
-        # replay of a whole trainer run: the list is trained again and the same oracle applied
-        import os
-        import trainer_io as T
-        sc = common.scratch()
-        path = os.path.join(sc, "tr.txt")
-        with open(path, "w", encoding="utf-8", newline="") as f:
-            f.write("\n".join(hist) + "\n")
-        mwp = None
-        if pre:
-            mwp = os.path.join(sc, "mw.txt")
-            with open(mwp, "w", encoding="utf-8", newline="") as f:
-                f.write("\n".join(pre) + "\n")
-        rec = T.train_inprocess(path, "utf-8", os.path.join(sc, "TR"), coverage=0.6, multiword=mwp)
-        if not rec.ok or len(rec.seqs) < 2 or len(rec.sections) != len(rec.seqs[1]):
-            return []
-        counts = spec_counts(pre, rec.seqs[0], kw)
-        v = oracle(kb, C["context_strings"], C["tld_list"], kw, pre, rec.seqs[0], counts, None, rec.seqs[1], rec.sections, None, None)
+        # replay of a whole trainer run: the file / list is trained again and the same judge applied
+        rp = {k: v for k, v in inp.items() if k in ("pre", "hist", "file", "enc")}
+        rp.setdefault("pre", [])
+        rec = run_trainer_case(common.scratch(), "rp", rp)
+        v, _ = judge_trainer_run(rec, rp, kb, C["context_strings"], C["tld_list"], kw, reject_reason())
         return [x for x in v if x["replay"]["pws"] == pws] or v
     mw = make_detector(pre, hist, kw)
     counts = spec_counts(pre, hist, kw)
